@@ -146,9 +146,26 @@ func fastqCorruptionCheck(k *K, what string, recs []*fastq.Fastq, i int, text []
 	for _, r := range recs {
 		orig[fastqKey(r)] = true
 	}
+	// The same text is delivered in four ways in turn (by case and text length):
+	// from memory, with the last bytes together with io.EOF, byte by byte, and by
+	// a reader that ends with an error which wraps io.EOF (a connection closed
+	// early) instead of the bare io.EOF value. The expectation is the same.
+	var src io.Reader = bytes.NewReader(text)
+	switch (int(k.Idx) + len(text)) % 4 {
+	case 1:
+		src = &schedReader{data: text, sizes: []int{7, 1, 4096}, eofWith: true}
+		k.Count("delivered_eof_with_data", 1)
+	case 2:
+		src = &schedReader{data: text}
+		k.Count("delivered_bytewise", 1)
+	case 3:
+		src = &faultReader{data: text, k: len(text), forever: len(text)%2 == 0, withData: len(text)%3 == 0, budget: len(text) + 10000,
+			err: fmt.Errorf("read tcp 10.0.0.1:443: connection closed by peer: %w", io.EOF)}
+		k.Count("delivered_ending_in_wrapped_eof", 1)
+	}
 	n := 0
 	sawErrAt := -1
-	for got, err := range fastq.Reader(bytes.NewReader(text)) {
+	for got, err := range fastq.Reader(src) {
 		if n > len(recs)+4 {
 			k.Failf("corruption", "%s: more than %d items", what, n)
 			return
@@ -203,6 +220,7 @@ func init() {
 			{Name: "fieldlens", TShards: 2, Run: lengthUnit("fastq")},
 			{Name: "parallel", Race: true, Run: codecParallel("fastq")},
 			{Name: "histories", Run: codecHistories("fastq")},
+			firstCallUnit(firstCodec("fastq")),
 		},
 	})
 }
